@@ -29,7 +29,7 @@ def sumMI {α} (f : α → M Int) : List α → M Int
     pure (a + b)
 
 /-- one side's material + piece-square sum (without the king) -/
-def sidePst (board : Array Nat) (s : Side) (tN tB tR tQ tP : List Int) : M Int := do
+def sidePst (board : Array Nat) (s : Side) (tN tB tR tQ tP : Array Int) : M Int := do
   let a ← sumMI (fun sq => do
     let pc ← bget board sq
     let k := pc &&& Colorless
@@ -41,19 +41,34 @@ def sidePst (board : Array Nat) (s : Side) (tN tB tR tQ tP : List Int) : M Int :
   let b ← sumMI (fun sq => do let v ← tgetI tP "sqTablePawns" sq; pure ((Gen.MaterialPawnScore : Int) + v)) s.pawns
   pure (a + b)
 
+def pstKnightsWhite : Array Int := Gen.sqTableKnightsWhite.toArray
+def pstBishopsWhite : Array Int := Gen.sqTableBishopsWhite.toArray
+def pstRooksWhite : Array Int := Gen.sqTableRooksWhite.toArray
+def pstQueensWhite : Array Int := Gen.sqTableQueensWhite.toArray
+def pstPawnsWhite : Array Int := Gen.sqTablePawnsWhite.toArray
+def pstKingMidWhite : Array Int := Gen.sqTableKingMidgameWhite.toArray
+def pstKingEndWhite : Array Int := Gen.sqTableKingEndgameWhite.toArray
+def pstKnightsBlack : Array Int := Gen.sqTableKnightsBlack.toArray
+def pstBishopsBlack : Array Int := Gen.sqTableBishopsBlack.toArray
+def pstRooksBlack : Array Int := Gen.sqTableRooksBlack.toArray
+def pstQueensBlack : Array Int := Gen.sqTableQueensBlack.toArray
+def pstPawnsBlack : Array Int := Gen.sqTablePawnsBlack.toArray
+def pstKingMidBlack : Array Int := Gen.sqTableKingMidgameBlack.toArray
+def pstKingEndBlack : Array Int := Gen.sqTableKingEndgameBlack.toArray
+
 /-- `pieceSquareScore` (from the mover's point of view) -/
 def pieceSquareScore (blend : Blend) (p : Position) : M Int := do
   let wm ← nonPawnMaterial p.board p.whitePieces
   let bm ← nonPawnMaterial p.board p.blackPieces
   let msum := wm + bm
-  let w ← sidePst p.board (p.side true) Gen.sqTableKnightsWhite Gen.sqTableBishopsWhite Gen.sqTableRooksWhite
-            Gen.sqTableQueensWhite Gen.sqTablePawnsWhite
-  let wkm ← tgetI Gen.sqTableKingMidgameWhite "sqTableKingMidgameWhite" p.whiteKing
-  let wke ← tgetI Gen.sqTableKingEndgameWhite "sqTableKingEndgameWhite" p.whiteKing
-  let b ← sidePst p.board (p.side false) Gen.sqTableKnightsBlack Gen.sqTableBishopsBlack Gen.sqTableRooksBlack
-            Gen.sqTableQueensBlack Gen.sqTablePawnsBlack
-  let bkm ← tgetI Gen.sqTableKingMidgameBlack "sqTableKingMidgameBlack" p.blackKing
-  let bke ← tgetI Gen.sqTableKingEndgameBlack "sqTableKingEndgameBlack" p.blackKing
+  let w ← sidePst p.board (p.side true) pstKnightsWhite pstBishopsWhite pstRooksWhite
+            pstQueensWhite pstPawnsWhite
+  let wkm ← tgetI pstKingMidWhite "sqTableKingMidgameWhite" p.whiteKing
+  let wke ← tgetI pstKingEndWhite "sqTableKingEndgameWhite" p.whiteKing
+  let b ← sidePst p.board (p.side false) pstKnightsBlack pstBishopsBlack pstRooksBlack
+            pstQueensBlack pstPawnsBlack
+  let bkm ← tgetI pstKingMidBlack "sqTableKingMidgameBlack" p.blackKing
+  let bke ← tgetI pstKingEndBlack "sqTableKingEndgameBlack" p.blackKing
   let score := (w + blend msum wkm wke) - (b + blend msum bkm bke)
   pure (if whiteTurn p then score else -score)
 
